@@ -21,14 +21,14 @@ RULE = ('rows = (rule set over names {a,b,default} each absent/@/!/role:x/role:y
         'not defined in the rule set (the fallback decides); distinct = distinct row. Stratum `mutation`: the same table re-checked after the '
         'rule set of a living enforcer changed (merge without overwrite, direct store update, item assignment / deletion, overwrite, '
         'file reload in non-overwrite mode), against the CURRENT rule set. Stratum `registered`: a registered default that no file mentions stays '
-        'defined (never decided by the default rule) through histories of policy.d edits, deletions and forced reloads, with and without a main file. Stratum `policy_dirs`: two and three configured policy directories (each one existing with two files, existing and empty, or missing on disk), every directory with files defining a name of its own (deny / role-dependent / null) plus its own body for a shared name, the default rule permissive and defined in the main file, in one of the directories, or configured as a check object / constructor name / option (and one unusable default), with and without a main file; after the first load and after every step of a short history (a directory file rewritten or added, a file deleted, a forced reload, the main file rewritten or created) every name is decided by the reference function applied to the rule set the CURRENT files define (main file, then the existing directories in configured order, files of a directory in sorted order, later definitions replacing earlier ones). A third of the table rows run with the debug logging of the library switched on. Stratum `reload`: a name defined in the main policy file (and an unknown name with a usable default) decided while the enforce call of another thread re-reads the rewritten main file in which those definitions stand unchanged (reloader pre-empted at sampled line boundaries). Stratum `overlap`: two decisions on one enforcer at the same time (second one runs at sampled line boundaries of the first, deterministic scheduler), each decided as the table says.')
+        'defined (never decided by the default rule) through histories of policy.d edits, deletions and forced reloads, with and without a main file. Stratum `policy_dirs`: two and three configured policy directories (each one existing with two files, existing and empty, or missing on disk), every directory with files defining a name of its own (deny / role-dependent / null) plus its own body for a shared name, the default rule permissive and defined in the main file, in one of the directories, or configured as a check object / constructor name / option (and one unusable default), with and without a main file; after the first load and after every step of a short history (a directory file rewritten or added, a file deleted, a forced reload, the main file rewritten or created) every name is decided by the reference function applied to the rule set the CURRENT files define (main file, then the existing directories in configured order, files of a directory in sorted order, later definitions replacing earlier ones). Half of the `policy_dirs` cases use SYMBOLIC LINKS (available/enabled layouts, ConfigMap mounts): directory files that are links to regular files kept elsewhere in the tree, outside every policy directory (relative and absolute link texts; rewritten where they are kept, taken away, pointed at a new file), extra directory files that are links to a file of another configured directory, and configured directories that are themselves links to a directory; no link ever dangles, the fold of the current files follows links, and a rewrite advances the times of the target, its directory and the directory of the link. Stratum `assigned_store`: the table on the routes that use a rule store AS IT IS - `enforcer.rules = store` with the store built by Rules.from_dict / Rules.load (JSON text) / Rules.load_json, its default_rule argument omitted, None, a name (default / b / ghost) or a check object: the default rule that is configured is the one the store was built with (the fallback key of the effective rule store), so with no default_rule argument unknown names deny even when a rule called `default` exists and allows; the configuration of the enforcer rotates through all nine. A third of the table rows run with the debug logging of the library switched on. Stratum `reload`: a name defined in the main policy file (and an unknown name with a usable default) decided while the enforce call of another thread re-reads the rewritten main file in which those definitions stand unchanged (reloader pre-empted at sampled line boundaries). Stratum `overlap`: two decisions on one enforcer at the same time (second one runs at sampled line boundaries of the first, deterministic scheduler), each decided as the table says.')
 ASSUMPTIONS = ['rule bodies contain no rule: references (reference cycles through the default are C06/C13 territory)',
                'role:x / role:y / @ / ! leaves evaluate as C01/C04 state']
 LEVEL_TEXT = ('The complete decision table of the statement (about 1.3e5 rows) is driven through the real enforcer and '
               'compared row by row; a finite quantifier, so enumeration is the right level.')
 LEVEL_NOTE = 'trusted: the 12-line reference function; the name/role universe is small by design'
 PLAN = {'quick': dict(shards=4, wall=120), 'thorough': dict(shards=8, wall=300)}
-MIN = {'policy_dirs_decisions': 8000, 'policy_dirs_decisions_name_only_in_earlier_directory': 400, 'overlapping_evaluations': 200, 'decisions_during_reload': 100, 'configs_under_debug_logging': 100, 'registered_decisions': 2000, 'mutation_decisions': 20000, 'evaluations': 10000, 'fallback_rows': 2000, 'allow_decisions': 1000, 'deny_decisions': 1000}
+MIN = {'assigned_store_decisions': 20000, 'assigned_store_unknown_name_no_default_argument': 1500, 'assigned_store_unknown_name_no_default_argument_rule_named_default_allows': 400, 'policy_dirs_decisions_with_symlinks': 8000, 'policy_dirs_decisions_name_only_in_symlinked_files': 1000, 'policy_dirs_decisions_symlinked_directory': 3000, 'policy_dirs_decisions': 8000, 'policy_dirs_decisions_name_only_in_earlier_directory': 400, 'overlapping_evaluations': 200, 'decisions_during_reload': 100, 'configs_under_debug_logging': 100, 'registered_decisions': 2000, 'mutation_decisions': 20000, 'evaluations': 10000, 'fallback_rows': 2000, 'allow_decisions': 1000, 'deny_decisions': 1000}
 ANCHORS = ['oslo_policy.policy:Rules.__missing__', 'oslo_policy.policy:Enforcer.enforce',
            'oslo_policy.policy:Enforcer.set_rules', 'oslo_policy.policy:Rules.__init__']
 REQUIRED_ANCHORS = ['oslo_policy.policy:Enforcer.enforce']
@@ -512,6 +512,7 @@ def check_policy_dirs(ctx, case):
     dir_links = {i: bool(ab) for i, ab in linked.get('dir_links', ())}
     link_abs = {(i, fn): bool(ab) for i, fn, ab in linked.get('outside', ())}
     outside = {}
+    kept = []
     tree = files.Tree(dirs=())
     try:
         names = ['pd%d' % i for i in range(len(case['dirs']))]
@@ -519,7 +520,8 @@ def check_policy_dirs(ctx, case):
 
         def put_outside(i, fn, mapping, absolute):
             tree.mkdir('store')
-            rel = 'store/%s-%s.%d' % (names[i], fn, tree.tick())
+            kept.append(fn)
+            rel = 'store/%s-%s.%d' % (names[i], fn, len(kept))
             tree.write(rel, materialise(mapping), 'json')
             if os.path.lexists(tree.path(names[i] + '/' + fn)):
                 tree.delete(names[i] + '/' + fn)
